@@ -180,14 +180,19 @@ def run(chk):
         "name validator": ix.get_function("validate_string"),
         "raise_or_warn helper": ix.get_function("raise_or_warn"),
     }
-    ve = ix.get_class("ValidatorEnum").methods.get("make_converter")
-    if ve is None or not ve.nested:
-        raise AnalysisError("ValidatorEnum.make_converter / its converter closure not found")
-    roles["soft enum converter"] = [f for f in ve.nested.values() if isinstance(f.node, ast.FunctionDef)][0]
+    from ..common import enum_converter
+    roles["soft enum converter"] = enum_converter(ix, chk.terms)[0]
     origin_methods = [m for m in ix.get_class("OriginItem").methods.values()]
     origin_readers = [m for m in origin_methods if m in readers]
+
+    def consults(f):
+        # the function itself, or a helper of its own class / module that it calls
+        if f in readers:
+            return True
+        return any(g in readers for g in cg.reachable([f]) if g is not f and (
+            (f.cls is not None and g.cls is f.cls) or (f.cls is None and g.cls is None and g.module is f.module)))
     for role, f in roles.items():
-        chk.require(f in readers, "R17.4", f"consults-flag:{role}",
+        chk.require(consults(f), "R17.4", f"consults-flag:{role}",
                     f"{f.short} no longer reads the live mode flag: its restriction cannot be enforced in the mode",
                     f.where)
     chk.require(bool(origin_readers), "R17.4", "consults-flag:file set number",
